@@ -415,12 +415,22 @@ pub fn check_case(re: &Regex, case: &Case, cap: usize, with_builder: bool, rng: 
         ks.push(n as usize);
         ks.sort();
         ks.dedup();
+        // All regexes are built first, from ONE builder whose limit is changed between builds, and
+        // only then searched: a limit that is shared instead of copied, or read at the wrong time,
+        // shows as a regex running with a later build's limit.
+        let mut builder = RegexBuilder::new(&case.pattern);
+        let mut built: Vec<(usize, Regex)> = Vec::new();
         for k in ks {
-            let Some(re2) = std::panic::catch_unwind(|| RegexBuilder::new(&case.pattern).backtrack_limit(k).build()).ok().and_then(|r| r.ok()) else {
-                continue;
-            };
+            builder.backtrack_limit(k);
+            let r = std::panic::catch_unwind(std::panic::AssertUnwindSafe(|| builder.build())).ok().and_then(|r| r.ok());
+            if let Some(r) = r {
+                built.push((k, r));
+            }
+        }
+        for (k, re2) in &built {
+            let k = *k;
             let f = Fault::Builder(k);
-            let e = exec(&re2, case, LimitOverride::default(), false);
+            let e = exec(re2, case, LimitOverride::default(), false);
             st.runs += 1;
             st.builder_configured += 1;
             if let Some(rs) = e.stats {
@@ -434,6 +444,18 @@ pub fn check_case(re: &Regex, case: &Case, cap: usize, with_builder: bool, rng: 
             }
             if let Some(v) = judge(&f, &e, &u, n, p, st) {
                 return Some(v);
+            }
+            // a clone keeps the limit it was built with
+            let e2 = exec(&re2.clone(), case, LimitOverride::default(), false);
+            st.runs += 1;
+            if let Some(rs) = e2.stats {
+                if rs.backtrack_limit != k {
+                    return found(
+                        "builder-limit-not-applied",
+                        format!("a clone of a regex built with backtrack_limit({}) ran with limit {}", k, rs.backtrack_limit),
+                        Some(f),
+                    );
+                }
             }
         }
     }
